@@ -388,6 +388,8 @@ def checksum_update_guard(ck, P, R="GUARD/checksum-update"):
 def run(ck):
     P = prog("K1")
     ck.configs.add("K1")
+    from .. import guards as _gct
+    _gct.c_truthiness(ck, P)
     fn, regs = mode_graph(ck, P)
     if fn is not None and regs:
         trailer_cut(ck, P, fn, regs)
